@@ -238,3 +238,70 @@ P(name="utf8_count_bounded8", props={"C16": SAFETY}, lib=UNILIB, stubs=UNI_STUBS
 P(name="utf8_count_bounded16", tier="thorough", props={"C16": SAFETY}, lib=UNILIB, stubs=UNI_STUBS, contracts=[],
   harness="harness/unicode.c", defines=["H_COUNT_BOUNDED", "UTF8_BOUND=16"], enforce=None, mode="plain",
   unwind=18, kind="bounded", bound="all byte strings of length <= 16", replay="utf8", min_covers=2, cost=60)
+
+# ------------------------------------------------------------------------------------------------
+# L2 items: read-only API (C18 empty frames, exact values)
+ITEMLIB = ["cbor/common.c", "cbor/ints.c", "cbor/floats_ctrls.c", "cbor/strings.c", "cbor/bytestrings.c",
+           "cbor/arrays.c", "cbor/maps.c", "cbor/tags.c", "cbor/internal/memory_utils.c", "cbor/internal/unicode.c"]
+ITEM_STUBS = ALLOC_STUBS + ["stubs/ghost_k.c", "stubs/unicode_ghost.c"]
+ITEM_CONTRACTS = ["contracts/items_ro.h"]
+
+RO_FUNCS = {
+    "mk_any": ["cbor_isa_uint", "cbor_isa_negint", "cbor_isa_bytestring", "cbor_isa_string", "cbor_isa_array",
+               "cbor_isa_map", "cbor_isa_tag", "cbor_isa_float_ctrl", "cbor_is_int", "cbor_is_bool", "cbor_is_null",
+               "cbor_is_undef", "cbor_is_float", "cbor_typeof", "cbor_refcount"],
+    "mk_int": ["cbor_int_get_width", "cbor_get_uint8", "cbor_get_uint16", "cbor_get_uint32", "cbor_get_uint64", "cbor_get_int"],
+    "mk_float_ctrl": ["cbor_float_get_width", "cbor_ctrl_value", "cbor_float_ctrl_is_ctrl", "cbor_float_get_float2",
+                      "cbor_float_get_float4", "cbor_float_get_float8", "cbor_float_get_float", "cbor_get_bool"],
+    "mk_bytestring": ["cbor_bytestring_length", "cbor_bytestring_handle", "cbor_bytestring_is_definite",
+                      "cbor_bytestring_is_indefinite", "cbor_bytestring_chunks_handle", "cbor_bytestring_chunk_count"],
+    "mk_string": ["cbor_string_length", "cbor_string_handle", "cbor_string_codepoint_count", "cbor_string_is_definite",
+                  "cbor_string_is_indefinite", "cbor_string_chunks_handle", "cbor_string_chunk_count"],
+    "mk_array": ["cbor_array_size", "cbor_array_allocated", "cbor_array_is_definite", "cbor_array_is_indefinite", "cbor_array_handle"],
+    "mk_map": ["cbor_map_size", "cbor_map_allocated", "cbor_map_is_definite", "cbor_map_is_indefinite", "cbor_map_handle"],
+    "mk_tag": ["cbor_tag_value"],
+}
+# callees replaced by contract inside each getter (a caller sees only the callee's contract)
+RO_CALLS = {
+    "cbor_is_int": ["cbor_isa_uint", "cbor_isa_negint"],
+    "cbor_is_bool": ["cbor_isa_float_ctrl", "cbor_float_ctrl_is_ctrl", "cbor_ctrl_value"],
+    "cbor_is_null": ["cbor_isa_float_ctrl", "cbor_float_ctrl_is_ctrl", "cbor_ctrl_value"],
+    "cbor_is_undef": ["cbor_isa_float_ctrl", "cbor_float_ctrl_is_ctrl", "cbor_ctrl_value"],
+    "cbor_is_float": ["cbor_isa_float_ctrl", "cbor_float_ctrl_is_ctrl"],
+    "cbor_int_get_width": ["cbor_is_int"],
+    "cbor_get_uint8": ["cbor_is_int", "cbor_int_get_width"], "cbor_get_uint16": ["cbor_is_int", "cbor_int_get_width"],
+    "cbor_get_uint32": ["cbor_is_int", "cbor_int_get_width"], "cbor_get_uint64": ["cbor_is_int", "cbor_int_get_width"],
+    "cbor_get_int": ["cbor_is_int", "cbor_int_get_width", "cbor_get_uint8", "cbor_get_uint16", "cbor_get_uint32", "cbor_get_uint64"],
+    "cbor_float_get_width": ["cbor_isa_float_ctrl"],
+    "cbor_ctrl_value": ["cbor_isa_float_ctrl", "cbor_float_get_width"],
+    "cbor_float_ctrl_is_ctrl": ["cbor_isa_float_ctrl", "cbor_float_get_width"],
+    "cbor_float_get_float2": ["cbor_is_float", "cbor_float_get_width"],
+    "cbor_float_get_float4": ["cbor_is_float", "cbor_float_get_width"],
+    "cbor_float_get_float8": ["cbor_is_float", "cbor_float_get_width"],
+    "cbor_float_get_float": ["cbor_is_float", "cbor_float_get_width", "cbor_float_get_float2", "cbor_float_get_float4", "cbor_float_get_float8"],
+    "cbor_get_bool": ["cbor_is_bool"],
+}
+for mk, fns in RO_FUNCS.items():
+    for fn in fns:
+        calls = RO_CALLS.get(fn)
+        if calls is None:
+            if fn.startswith("cbor_bytestring_"):
+                calls = ["cbor_isa_bytestring"] + (["cbor_bytestring_is_definite"] if fn != "cbor_bytestring_is_definite" and ("indefinite" in fn or "chunk" in fn) else [])
+                if "chunk" in fn:
+                    calls.append("cbor_bytestring_is_indefinite")
+            elif fn.startswith("cbor_string_"):
+                calls = ["cbor_isa_string"] + (["cbor_string_is_definite"] if fn != "cbor_string_is_definite" and ("indefinite" in fn or "chunk" in fn) else [])
+                if "chunk" in fn:
+                    calls.append("cbor_string_is_indefinite")
+            elif fn.startswith("cbor_array_"):
+                calls = ["cbor_isa_array"]
+            elif fn.startswith("cbor_map_"):
+                calls = ["cbor_isa_map"] + (["cbor_map_is_definite"] if fn == "cbor_map_is_indefinite" else [])
+            elif fn.startswith("cbor_tag_"):
+                calls = ["cbor_isa_tag"]
+            else:
+                calls = []
+        P(name="ro_" + fn.replace("cbor_", ""), props={"C18": FUNC + FRAME, "C01": SAFETY, "C13": [], "C17": FRAME},
+          lib=ITEMLIB, stubs=ITEM_STUBS, contracts=ITEM_CONTRACTS, harness="harness/ro.c",
+          defines=["RO_FN=" + fn, "RO_MK=" + mk], enforce=fn, replace=calls,
+          must_exist=[r"%s\.postcondition\.1" % fn] if fn != "cbor_float_get_float" else [], min_covers=1, cost=2)
